@@ -141,6 +141,12 @@ def gen_plan(prop, seed, index, tier="quick"):
             elif k == "topic_create":
                 env.append({"at": at, "do": "topic_create", "topic": f"t{ntopics + len(env)}x",
                             "partitions": r.randint(1, 3)})
+    if prop == "C13" and r.random() < 0.35:
+        # a partition without a leader while the group forms: its committed-offset lookup
+        # starts later than the others' (lookups overlapping an OffsetFetch in flight)
+        t = r.choice(sorted(topics))
+        env.append({"at": round(r.uniform(0.0, 0.15), 3), "do": "leader_unavailable", "topic": t,
+                    "p": r.randrange(topics[t]["partitions"]), "d": r.choice([0.1, 0.3, 0.6])})
     env.sort(key=lambda e: e["at"])
     if any(e["do"] in ("partitions_grow", "topic_create") for e in env):
         # new partitions / topics are only discovered by the periodic metadata refresh
